@@ -203,24 +203,23 @@ theorem addItems_congr (ois : List (Option Item)) (t₁ t₂ : Table RVal) (h : 
           rw [h1, h2] at this
           exact ih a b this
 
-/-- **Acceptance does not depend on the history** (creation of a rule set): after any history the new rule set is
-accepted iff loading the current rule sets followed by the new one into an empty instance succeeds — stale state of
-earlier versions can neither block a valid rule set nor admit an invalid one. -/
-theorem c06_add_accept_iff_fresh (ops : List RepoOp) (src : String) (rules : List RuleCfg) :
-    ((Repo.run ops).apply (.add src rules)).isSome =
-      (addRules [] ((Repo.run ops).known ++ rules.map (Rule.mk src))).isSome := by
-  obtain ⟨t, ht, hn⟩ := fresh_of_inv _ (c06_inv_run ops)
-  have hsplit : addRules [] ((Repo.run ops).known ++ rules.map (Rule.mk src)) =
-      (addRules [] (Repo.run ops).known).bind (fun t' => addRules t' (rules.map (Rule.mk src))) := by
+/-- adding rules to a state that satisfies the invariant succeeds iff the fresh load of its known rules followed by
+the new ones succeeds -/
+theorem add_accept_iff_fresh_of_inv (s : Repo) (hinv : RepoInv s) (src : String) (rules : List RuleCfg) :
+    (addRules s.index (rules.map (Rule.mk src))).isSome =
+      (addRules [] (s.known ++ rules.map (Rule.mk src))).isSome := by
+  obtain ⟨t, ht, hn⟩ := fresh_of_inv s hinv
+  have hsplit : addRules [] (s.known ++ rules.map (Rule.mk src)) =
+      (addRules [] s.known).bind (fun t' => addRules t' (rules.map (Rule.mk src))) := by
     rw [addRules_eq, allItems_append, addItems_append, ← addRules_eq]
-    cases addRules [] (Repo.run ops).known with
+    cases addRules [] s.known with
     | none => rfl
     | some t' => simp [addRules_eq]
   rw [hsplit, ht]
-  simp only [Option.bind_some, Repo.apply, Repo.addRuleSet]
+  simp only [Option.bind_some]
   have := addItems_congr (allItems (rules.map (Rule.mk src))) _ _ (fun p => (hn p).symm)
   rw [← addRules_eq, ← addRules_eq] at this
-  cases h1 : addRules (Repo.run ops).index (rules.map (Rule.mk src)) with
+  cases h1 : addRules s.index (rules.map (Rule.mk src)) with
   | none =>
     cases h2 : addRules t (rules.map (Rule.mk src)) with
     | none => rfl
@@ -229,6 +228,141 @@ theorem c06_add_accept_iff_fresh (ops : List RepoOp) (src : String) (rules : Lis
     cases h2 : addRules t (rules.map (Rule.mk src)) with
     | none => rw [h1, h2] at this; simp [Rel] at this
     | some b => rfl
+
+/-- **Acceptance does not depend on the history** (creation of a rule set): after any history the new rule set is
+accepted iff loading the current rule sets followed by the new one into an empty instance succeeds — stale state of
+earlier versions can neither block a valid rule set nor admit an invalid one. -/
+theorem c06_add_accept_iff_fresh (ops : List RepoOp) (src : String) (rules : List RuleCfg) :
+    ((Repo.run ops).apply (.add src rules)).isSome =
+      (addRules [] ((Repo.run ops).known ++ rules.map (Rule.mk src))).isSome := by
+  rw [← add_accept_iff_fresh_of_inv _ (c06_inv_run ops) src rules]
+  simp only [Repo.apply, Repo.addRuleSet]
+  cases addRules (Repo.run ops).index (rules.map (Rule.mk src)) <;> rfl
+
+/-- **… and so does the acceptance of an update**: the new version is accepted iff the rule sets of the OTHER sources
+followed by the new version load into an empty instance (the version being replaced plays no part; `NoAlias` as for
+deletion). -/
+theorem c06_update_accept_iff_fresh (ops : List RepoOp) (src : String) (rules : List RuleCfg)
+    (hna : NoAlias (targets ((Repo.run ops).known.filter (·.src == src)))) :
+    ((Repo.run ops).apply (.upd src rules)).isSome =
+      (addRules [] ((Repo.run ops).known.filter (·.src != src) ++ rules.map (Rule.mk src))).isSome := by
+  obtain ⟨t1, ht1⟩ := removeRules_succeeds src _ (c06_inv_run ops) hna
+  obtain ⟨items, hk, hh, hnd, hc, _⟩ := inv_remove src _ (c06_inv_run ops) t1 ht1
+  have hinv : RepoInv ⟨(Repo.run ops).known.filter (·.src != src), t1⟩ := ⟨items, hk, hh, hnd, hc⟩
+  rw [← add_accept_iff_fresh_of_inv _ hinv src rules]
+  simp only [Repo.apply, Repo.updateRuleSet, ht1]
+  cases addRules t1 (rules.map (Rule.mk src)) <;> rfl
+
+/-- what a source's rule set should be after a history, told from the operations alone: an accepted creation
+appends, an accepted update replaces, an accepted deletion empties, a rejected change and changes of other sources
+leave it as it is -/
+def trackStep (src : String) (st : Repo × List RuleCfg) (op : RepoOp) : Repo × List RuleCfg :=
+  let cur :=
+    if (st.1.apply op).isSome then
+      match op with
+      | .add x rs => if x = src then st.2 ++ rs else st.2
+      | .upd x rs => if x = src then rs else st.2
+      | .del x => if x = src then [] else st.2
+    else st.2
+  (st.1.step op, cur)
+
+def currentRules (src : String) (ops : List RepoOp) : List RuleCfg :=
+  (ops.foldl (trackStep src) (Repo.empty, [])).2
+
+theorem filter_mk_same (src : String) (rs : List RuleCfg) :
+    (rs.map (Rule.mk src)).filter (·.src == src) = rs.map (Rule.mk src) := by
+  induction rs with
+  | nil => rfl
+  | cons r rest ih => simp [ih]
+
+theorem filter_mk_other (x src : String) (h : x ≠ src) (rs : List RuleCfg) :
+    (rs.map (Rule.mk x)).filter (·.src == src) = [] := by
+  induction rs with
+  | nil => rfl
+  | cons r rest ih => simp [ih, h]
+
+theorem track_fst (src : String) (ops : List RepoOp) (st : Repo × List RuleCfg) :
+    (ops.foldl (trackStep src) st).1 = ops.foldl Repo.step st.1 := by
+  induction ops generalizing st with
+  | nil => rfl
+  | cons op rest ih => simp only [List.foldl_cons]; rw [ih]; rfl
+
+theorem track_inv (src : String) (ops : List RepoOp) (st : Repo × List RuleCfg)
+    (h : st.1.known.filter (·.src == src) = st.2.map (Rule.mk src)) :
+    (ops.foldl (trackStep src) st).1.known.filter (·.src == src) =
+      (ops.foldl (trackStep src) st).2.map (Rule.mk src) := by
+  induction ops generalizing st with
+  | nil => exact h
+  | cons op rest ih =>
+    simp only [List.foldl_cons]
+    apply ih
+    simp only [trackStep, Repo.step]
+    cases ha : st.1.apply op with
+    | none => simpa using h
+    | some s' =>
+      simp only [Option.isSome_some, if_true, Option.getD_some]
+      cases op with
+      | add x rs =>
+        simp only [Repo.apply, Repo.addRuleSet] at ha
+        cases h1 : addRules st.1.index (rs.map (Rule.mk x)) with
+        | none => simp [h1] at ha
+        | some t =>
+          simp only [h1, Option.some.injEq] at ha
+          subst ha
+          simp only [List.filter_append, h]
+          by_cases hx : x = src
+          · subst hx; simp [filter_mk_same]
+          · simp [hx, filter_mk_other x src hx]
+      | upd x rs =>
+        simp only [Repo.apply, Repo.updateRuleSet] at ha
+        cases h0 : removeRules st.1.index [] (st.1.known.filter (·.src == x)) with
+        | none => simp [h0] at ha
+        | some t1 =>
+          cases h1 : addRules t1 (rs.map (Rule.mk x)) with
+          | none => simp [h0, h1] at ha
+          | some t2 =>
+            simp only [h0, h1, Option.some.injEq] at ha
+            subst ha
+            simp only [List.filter_append, List.filter_filter]
+            by_cases hx : x = src
+            · subst hx
+              have : (st.1.known.filter fun a => (a.src == x && a.src != x)) = [] := by
+                apply List.filter_eq_nil_iff.mpr; intro a _; simp
+              simp [filter_mk_same, this]
+            · have : (st.1.known.filter fun a => (a.src == src && a.src != x)) = st.1.known.filter (·.src == src) := by
+                apply List.filter_congr; intro a _
+                by_cases ha : a.src = src
+                · simp [ha, Ne.symm hx]
+                · simp [ha]
+              simp [hx, filter_mk_other x src hx, this, h]
+      | del x =>
+        simp only [Repo.apply, Repo.deleteRuleSet] at ha
+        cases h0 : removeRules st.1.index [] (st.1.known.filter (·.src == x)) with
+        | none => simp [h0] at ha
+        | some t1 =>
+          simp only [h0, Option.some.injEq] at ha
+          subst ha
+          simp only [List.filter_filter]
+          by_cases hx : x = src
+          · subst hx
+            have : (st.1.known.filter fun a => (a.src == x && a.src != x)) = [] := by
+              apply List.filter_eq_nil_iff.mpr; intro a _; simp
+            simp [this]
+          · have : (st.1.known.filter fun a => (a.src == src && a.src != x)) = st.1.known.filter (·.src == src) := by
+              apply List.filter_congr; intro a _
+              by_cases ha : a.src = src
+              · simp [ha, Ne.symm hx]
+              · simp [ha]
+            simp [hx, this, h]
+
+/-- **The rule set in force is the one the history says**: after any history the rules of a source known to the
+repository are, in order, the accepted creations appended to / replaced by the last accepted update / emptied by an
+accepted deletion — the order of rules inside a rule set is the order of its current version. -/
+theorem c06_known_is_current (ops : List RepoOp) (src : String) :
+    (Repo.run ops).known.filter (·.src == src) = (currentRules src ops).map (Rule.mk src) := by
+  have := track_inv src ops (Repo.empty, []) (by simp [Repo.empty])
+  rw [track_fst] at this
+  exact this
 
 
 end Heimdall.Props.C06
